@@ -80,7 +80,7 @@ PROPS = {
     "C01": {
         "n_quick": 1500, "n_thorough": 37500,
         "technique": 'Coq proof (soundness of the tree matcher by nested induction) + correspondence model ~ implementation ~ declarative priority spec',
-        "level_text": 'proof: C01_dispatch_iff (for every list of accepted registrations, every path and header predicate: dispatched iff some registered route - long or short form - admits the segments and its constraints hold; hence fall-back, never not-found while an admitting route exists), C01_dispatch_sound(_registered), C01_registration_invariant (children sorted by rank with stable insertion, distinct keys, match-all last; exactly the paths of the route itself are added), C01_regex_exact; the choice among several admitting routes (RouteSpec.spec_winner) is checked by correspondence on every request, not yet proved',
+        "level_text": 'proof: C01_dispatch_iff / C01_dispatch_iff_parsed (the latter without any hypothesis, for routes returned by the parser; for every list of accepted registrations, every path and header predicate: dispatched iff some registered route - long or short form - admits the segments and its constraints hold; hence fall-back, never not-found while an admitting route exists), C01_dispatch_sound(_registered), C01_registration_invariant (children sorted by rank with stable insertion, distinct keys, match-all last; exactly the paths of the route itself are added), C01_regex_exact; the choice among several admitting routes (RouteSpec.spec_winner) is checked by correspondence on every request, not yet proved',
         "level_note": 'trusts Coq kernel, extraction, glue; Go regexp is modelled for a fragment (literals, classes, ., concatenation, alternation, greedy * + ? with non-nullable bodies, groups); regex subjects are ASCII; inner groups are non-capturing in the model',
         "rule": 'random registration/Headers/request histories: 1-7 registrations from a collision-rich segment pool (statics incl. regex metacharacters, placeholders, regex segments with several binds / inner groups / random regex ASTs, match-all with capture 1|2|-1|3x, optional last segment, trailing slash), methods GET/other/Any/lower-case, ~8% ill-formed registrations; requests = instances of registered routes (regex parts sampled from the AST), perturbed instances, random segment strings; headers on ~10% of registrations. After a rejected registration the run continues on an instance rebuilt from the accepted operations (AddRoute is not atomic, F11). Non-trivial: a request that >= 2 derivations (routes or capture lengths) admit.',
         "what": 'model (tree insert + match, shortcut, headers) vs ServeHTTP: accept/reject of each registration and chosen route + params of each request; spec: the chosen route equals spec_winner (flat routes x derivations, least key (fallback,rank,birth,captured) per depth)',
@@ -126,7 +126,7 @@ PROPS = {
         "n_quick": 1500, "n_thorough": 37500,
         "technique": 'Coq proof (router invariant by induction over registration/Headers histories; static lookup through the priority-sorted tree) + correspondence against tree matching',
         "level_text": 'proof: C10_unobservable - for every router state reachable by any history of successful registrations and Headers() calls, every method, path and header set, serve = serve_tree (same route, empty parameters, same header gating); rests on C10_invariant (every method tree well-formed and priority-sorted, every table entry a registered fully static unconstrained route whose own kind path is in the tree of that method) and on static_lookup (tree matching of the literals of a static path returns that route first); tied to the code by histories whose every request outcome is compared with the model and with the model tree matcher',
-        "level_note": 'trusts Coq kernel, extraction, glue; hypothesis on registered segments: their canonical text is injective and identifiers are non-empty and slash-free (what the parser produces, C06)',
+        "level_note": 'trusts Coq kernel, extraction, glue; the hypothesis on registered segments (canonical text injective, identifiers non-empty and slash-free) is discharged for parser output by C06_exact: C10_unobservable_parsed has no hypothesis',
         "rule": "random registration/Headers/request histories: 1-7 registrations from a collision-rich segment pool (statics incl. regex metacharacters, placeholders, regex segments with several binds / inner groups / random regex ASTs, match-all with capture 1|2|-1|3x, optional last segment, trailing slash), methods GET/other/Any/lower-case, ~8% ill-formed registrations; requests = instances of registered routes (regex parts sampled from the AST), perturbed instances, random segment strings; static-heavy route sets, paths equal to route texts (incl. '?'), extra leading/trailing slashes. After a rejected registration the run continues on an instance rebuilt from the accepted operations (AddRoute is not atomic, F11). Non-trivial: a request answered from the shortcut table.",
         "what": "outcome of every request vs model; spec: equals the model's full tree matching for the same method and path",
         "assumes": [],
